@@ -17,9 +17,12 @@ import (
 	"sync"
 
 	"seehuhn.de/go/pdf"
+	"seehuhn.de/go/pdf/annotation"
+	"seehuhn.de/go/pdf/annotation/decode"
 	"seehuhn.de/go/pdf/font/cmap"
 	"seehuhn.de/go/pdf/font/dict"
 	"seehuhn.de/go/pdf/graphics/extract"
+	"seehuhn.de/go/pdf/page"
 )
 
 type node struct {
@@ -48,6 +51,22 @@ type record struct {
 	Chains  [][]int    `json:"chains"` // [from, to]: object from is a reference to object to
 	Runs    []runEnt   `json:"runs"`   // decoder runs for keys only reached through DecodeExclusive
 	Writer  bool       `json:"writerok"`
+	// Links: pages of a file with an interactive form decoded by several
+	// goroutines through one Extractor; one entry per widget found on a page
+	Links []linkEnt `json:"links"`
+}
+
+// linkEnt: a widget as one page decode returned it.  Field is the identity of
+// the field it is linked to (0: none), Tree the identity of the field of that
+// name in the form's field tree, Count how often the widget occurs among its
+// field's widgets, PageID the identity of the page value.
+type linkEnt struct {
+	Page   int `json:"page"`
+	PageID int `json:"pageid"`
+	Widget int `json:"widget"`
+	Field  int `json:"field"`
+	Tree   int `json:"tree"`
+	Count  int `json:"count"`
 }
 type cacheEnt struct {
 	Ref int    `json:"ref"`
@@ -190,6 +209,125 @@ func copyEmbeddedCMap(which int) (ok bool, dig string) {
 		kind = "name"
 	}
 	return true, fmt.Sprintf("%s cid(21)=%d cid(20)=%d", kind, back.LookupCID([]byte{0x21}), back.LookupCID([]byte{0x20}))
+}
+
+// formsRound writes a file whose pages carry the widgets of the text fields
+// of an interactive form (every field has one widget per page, as separate
+// kids), lets several goroutines decode the pages through one Extractor at
+// the same time, and reports how the widgets are linked.
+func formsRound(r *rand.Rand, ids func(any) int) ([]linkEnt, error) {
+	var buf bytes.Buffer
+	w, err := pdf.NewWriter(&buf, pdf.V1_7, nil)
+	if err != nil {
+		return nil, err
+	}
+	nPages, nFields := 2+r.Intn(3), 20+r.Intn(30)
+	pagesRef, formRef := w.Alloc(), w.Alloc()
+	pageRefs := make([]pdf.Reference, nPages)
+	annots := make([]pdf.Array, nPages)
+	for i := range pageRefs {
+		pageRefs[i] = w.Alloc()
+	}
+	var fields pdf.Array
+	for f := 0; f < nFields; f++ {
+		fieldRef, kidsRef := w.Alloc(), w.Alloc()
+		fields = append(fields, fieldRef)
+		var kids pdf.Array
+		for pg := 0; pg < nPages; pg++ {
+			wr := w.Alloc()
+			kids = append(kids, wr)
+			annots[pg] = append(annots[pg], wr)
+			must(w.Put(wr, pdf.Dict{"Type": pdf.Name("Annot"), "Subtype": pdf.Name("Widget"),
+				"Rect": pdf.Array{pdf.Integer(10), pdf.Integer(10 + 3*f), pdf.Integer(100), pdf.Integer(12 + 3*f)}, "Parent": fieldRef, "P": pageRefs[pg]}))
+		}
+		must(w.Put(kidsRef, kids))
+		must(w.Put(fieldRef, pdf.Dict{"FT": pdf.Name("Tx"), "T": pdf.String(fmt.Sprintf("field%03d", f)), "Kids": kidsRef}))
+	}
+	for i, pr := range pageRefs {
+		must(w.Put(pr, pdf.Dict{"Type": pdf.Name("Page"), "Parent": pagesRef, "Resources": pdf.Dict{}, "Annots": annots[i],
+			"MediaBox": pdf.Array{pdf.Integer(0), pdf.Integer(0), pdf.Integer(200), pdf.Integer(200)}}))
+	}
+	kidsArr := pdf.Array{}
+	for _, pr := range pageRefs {
+		kidsArr = append(kidsArr, pr)
+	}
+	must(w.Put(pagesRef, pdf.Dict{"Type": pdf.Name("Pages"), "Kids": kidsArr, "Count": pdf.Integer(nPages)}))
+	must(w.Put(formRef, pdf.Dict{"Fields": fields}))
+	w.GetMeta().Catalog.Pages = pagesRef
+	w.GetMeta().Catalog.AcroForm = formRef
+	must(w.Close())
+
+	rd, err := pdf.NewReader(bytes.NewReader(buf.Bytes()), int64(buf.Len()), nil)
+	if err != nil {
+		return nil, err
+	}
+	defer rd.Close()
+	x := pdf.NewExtractor(rd)
+	G := 2 + r.Intn(4)
+	type got struct {
+		pg int
+		p  *page.Page
+	}
+	var mu sync.Mutex
+	var all []got
+	var firstErr error
+	var wg sync.WaitGroup
+	start := make(chan struct{})
+	for g := 0; g < G; g++ {
+		order := r.Perm(nPages)
+		wg.Add(1)
+		go func() {
+			defer wg.Done()
+			<-start
+			for _, pg := range order {
+				p, err := pdf.Decode(pdf.CursorAt(x, nil), pageRefs[pg], page.Decode)
+				mu.Lock()
+				if err != nil && firstErr == nil {
+					firstErr = err
+				}
+				all = append(all, got{pg, p})
+				mu.Unlock()
+			}
+		}()
+	}
+	close(start)
+	wg.Wait()
+	if firstErr != nil {
+		return nil, firstErr
+	}
+	form, err := pdf.Decode(pdf.CursorAt(x, nil), formRef, decode.Form)
+	if err != nil || form == nil {
+		return nil, fmt.Errorf("form: %v", err)
+	}
+	tree := map[string]int{}
+	for _, f := range form.Fields {
+		tree[f.PartialName()] = ids(f)
+	}
+	var links []linkEnt
+	for _, g := range all {
+		if g.p == nil {
+			links = append(links, linkEnt{Page: g.pg})
+			continue
+		}
+		for _, a := range g.p.Annots {
+			wd, ok := a.(*annotation.Widget)
+			if !ok {
+				continue
+			}
+			l := linkEnt{Page: g.pg, PageID: ids(g.p), Widget: ids(wd)}
+			if wd.Field != nil {
+				l.Field = ids(wd.Field)
+				l.Tree = tree[wd.Field.PartialName()]
+				for _, fw := range wd.Field.GetCommon().Widgets {
+					if fw == wd {
+						l.Count++
+					}
+				}
+			}
+			links = append(links, l)
+		}
+	}
+	return links, nil
 }
 
 func predefinedROS(which int) (bool, string) {
@@ -642,6 +780,15 @@ func main() {
 		close(start)
 		wg.Wait()
 		rec.Writer = writerOK
+		rec.Links = []linkEnt{}
+		for k := 0; k < 3; k++ {
+			links, err := formsRound(r, w.id)
+			if err != nil {
+				fmt.Fprintln(os.Stderr, "c18free: forms round:", err)
+				os.Exit(3)
+			}
+			rec.Links = append(rec.Links, links...)
+		}
 
 		cache, _ := pdf.VerifCacheSnapshot(w.x)
 		for k, v := range cache {
